@@ -1191,7 +1191,8 @@ convert_to_object_bitfield(char *data, CFieldObject *cf)
         PY_LONG_LONG result;
 
         value = (unsigned PY_LONG_LONG)read_raw_signed_data(data, ct->ct_size);
-        valuemask = (1ULL << cf->cf_bitsize) - 1ULL;
+        /* two shifts: cf_bitsize can be 64, and '1ULL << 64' is undefined */
+        valuemask = ((1ULL << (cf->cf_bitsize - 1)) << 1) - 1ULL;
         shiftforsign = 1ULL << (cf->cf_bitsize - 1);
         value = ((value >> cf->cf_bitshift) + shiftforsign) & valuemask;
         result = ((PY_LONG_LONG)value) - (PY_LONG_LONG)shiftforsign;
@@ -1205,7 +1206,7 @@ convert_to_object_bitfield(char *data, CFieldObject *cf)
         unsigned PY_LONG_LONG value, valuemask;
 
         value = read_raw_unsigned_data(data, ct->ct_size);
-        valuemask = (1ULL << cf->cf_bitsize) - 1ULL;
+        valuemask = ((1ULL << (cf->cf_bitsize - 1)) << 1) - 1ULL;
         value = (value >> cf->cf_bitshift) & valuemask;
 
         if (ct->ct_flags & CT_PRIMITIVE_FITS_LONG)
@@ -1816,19 +1817,24 @@ convert_from_object_bitfield(char *data, CFieldObject *cf, PyObject *init)
 {
     CTypeDescrObject *ct = cf->cf_type;
     PY_LONG_LONG fmin, fmax, value = PyLong_AsLongLong(init);
-    unsigned PY_LONG_LONG rawfielddata, rawvalue, rawmask;
+    unsigned PY_LONG_LONG rawfielddata, rawvalue, rawmask, valuemask;
     if (value == -1 && PyErr_Occurred())
         return -1;
 
+    /* two shifts: cf_bitsize can be 64, and '1ULL << 64' is undefined */
+    valuemask = ((1ULL << (cf->cf_bitsize - 1)) << 1) - 1ULL;
     if (ct->ct_flags & CT_PRIMITIVE_SIGNED) {
-        fmin = -(1LL << (cf->cf_bitsize-1));
-        fmax = (1LL << (cf->cf_bitsize-1)) - 1LL;
+        fmax = (PY_LONG_LONG)(valuemask >> 1);
+        fmin = -fmax - 1LL;
         if (fmax == 0)
             fmax = 1;    /* special case to let "int x:1" receive "1" */
     }
     else {
         fmin = 0LL;
-        fmax = (PY_LONG_LONG)((1ULL << cf->cf_bitsize) - 1ULL);
+        if (valuemask > (unsigned PY_LONG_LONG)PY_LLONG_MAX)
+            fmax = PY_LLONG_MAX;   /* 'value' is a signed long long */
+        else
+            fmax = (PY_LONG_LONG)valuemask;
     }
     if (value < fmin || value > fmax) {
         /* phew, PyErr_Format does not support "%lld" in Python 2.6 */
@@ -1859,7 +1865,7 @@ convert_from_object_bitfield(char *data, CFieldObject *cf, PyObject *init)
         return -1;
     }
 
-    rawmask = ((1ULL << cf->cf_bitsize) - 1ULL) << cf->cf_bitshift;
+    rawmask = valuemask << cf->cf_bitshift;
     rawvalue = ((unsigned PY_LONG_LONG)value) << cf->cf_bitshift;
     /*WRITE(data, ct->ct_size)*/
     rawfielddata = read_raw_unsigned_data(data, ct->ct_size);
